@@ -721,19 +721,31 @@ ComponentNameMap createComponentNamesMap(const ComponentPtr &component)
     return nameMap;
 }
 
-std::vector<UnitsPtr> referencedUnits(const ModelPtr &model, const UnitsPtr &units)
+void doReferencedUnits(const ModelPtr &model, const UnitsPtr &units, std::vector<UnitsPtr> &requiredUnits, std::vector<UnitsPtr> &unitsBeingVisited)
 {
-    std::vector<UnitsPtr> requiredUnits;
+    unitsBeingVisited.push_back(units);
 
     for (size_t index = 0; index < units->unitCount(); ++index) {
         const std::string ref = units->unitAttributeReference(index);
         if (!isStandardUnitName(ref)) {
             auto refUnits = model->units(ref);
-            auto requiredUnitsUnits = referencedUnits(model, refUnits);
-            requiredUnits.insert(requiredUnits.end(), requiredUnitsUnits.begin(), requiredUnitsUnits.end());
+            // Do not follow units that (directly or indirectly) refer to themselves.
+            if (std::find(unitsBeingVisited.begin(), unitsBeingVisited.end(), refUnits) == unitsBeingVisited.end()) {
+                doReferencedUnits(model, refUnits, requiredUnits, unitsBeingVisited);
+            }
             requiredUnits.push_back(refUnits);
         }
     }
+
+    unitsBeingVisited.pop_back();
+}
+
+std::vector<UnitsPtr> referencedUnits(const ModelPtr &model, const UnitsPtr &units)
+{
+    std::vector<UnitsPtr> requiredUnits;
+    std::vector<UnitsPtr> unitsBeingVisited;
+
+    doReferencedUnits(model, units, requiredUnits, unitsBeingVisited);
 
     return requiredUnits;
 }
